@@ -70,6 +70,13 @@ Theorem C19_gen_read : forall nil d sp o l pd psp, 0 <= o <= Z.of_nat (length d)
 Proof. exact GenBufP.gen_buf_read. Qed.
 Print Assumptions C19_gen_read.
 
+(* WriteTo: the io.Writer is an oracle answering (m, e) with 0 <= m; it is handed exactly the unread bytes *)
+Theorem C19_gen_write_to : forall nil d sp o l m (e : bool), 0 <= o <= Z.of_nat (length d) -> 0 <= m ->
+  bview_wt nil (Buffers.buf_write_to (d, sp) o l tt m (if e then EUser else ENil) []) =
+  cstep (fun c => c) 0 (abs_pc nil ((d, sp), o, l)) (OWriteTo m e).
+Proof. exact GenBufP.gen_buf_write_to. Qed.
+Print Assumptions C19_gen_write_to.
+
 (* For EVERY operation list (any arguments: sizes zero, negative, beyond the
    contents; any runes; any reader/writer scripts), from NewPrintCtx(b) for any b,
    capacity and nil-ness: same results, errors, panics, String() and Len() at
